@@ -133,6 +133,47 @@ CLAIMED = {
         design_ref="DESIGN.md 3 C09, 8",
         note="Glue only. GLS254, signing and ECDH key-derivation glue are not posed (ECDH totality: C19, constant time: C02).",
     ),
+    "C04": dict(
+        engine="polyid",
+        technique="symbolic execution of rustc MIR in algorithm mode over the free module (digits symbolic, group elements as linear forms); z3 decides coefficient identities; recoders decided for all scalars; precomputed tables as native ground facts",
+        category="model_checking",
+        text=("set_mul and set_mulgen of the curves in the tier are executed from MIR with the signed-digit recoder and the "
+              "constant-time lookup replaced by their contracts; z3 decides that the result's coefficient is sum d_i 2^(w i) "
+              "for all in-range digit vectors; the recoders' contracts are decided for all scalars; every precomputed table "
+              "entry is checked natively."),
+        design_ref="DESIGN.md 2.4, 3 C04; engines/polyid/NOTES.md",
+        note="Abstract group operations are the group law by C03; lookups by C20. gls254::set_mul is not abstractable (listed).",
+    ),
+    "C10": dict(
+        engine="polyid",
+        technique="MIR algorithm mode: wNAF multi-scalar loops executed over the free module with symbolic digits, per-column lemmas decided by z3; wNAF recoders decided for all integers; native replay",
+        category="model_checking",
+        text=("The variable-time u*P+v*G routines (and 128-bit / mu variants in the thorough tier) equal the plain "
+              "combination for all valid wNAF digit arrays (skipped zero columns, coalesced doublings and the neutral-"
+              "accumulator flag are symbolic); the NAF recoders meet their contracts for all inputs."),
+        design_ref="DESIGN.md 3 C10; engines/polyid/NOTES.md",
+        note="verify_helper_vartime glue is covered by C07 (Ed25519) / C11's K part; digits assumed only 0 or odd with |d|<=15.",
+    ),
+    "C14": dict(
+        engine="polyid",
+        technique="symbolic execution of rustc MIR of x25519()/x448() over an abstract ring with symbolic scalar bits; per-iteration equality with RFC 7748's pseudo-code decided by z3; native RFC vectors",
+        category="model_checking",
+        text=("Clamping, u-coordinate decoding (top bit ignored, reduction), ladder initialisation, each of the 255/448 "
+              "ladder steps, the final division and the base-point variants' birational map are decided equal to RFC 7748 "
+              "section 5 as ring identities."),
+        design_ref="DESIGN.md 3 C14; engines/polyid/NOTES.md",
+        note="'The ladder computes x([k]P)' is the classical theorem (trusted); field ops are C01/C05/C12.",
+    ),
+    "C15": dict(
+        engine="kani",
+        technique="Kani/CBMC proof harnesses inside each FROST suite module over the real src/frost.rs with contract stubs for scalar/point arithmetic; concrete-playback replay without stubs",
+        category="model_checking",
+        text=("Wire formats of every FROST type (round trip, exact length, identifier 0, lists), and panic-freedom of "
+              "verify_signature_share / assemble_signature / verify_split / sign / decode* for arbitrary small inputs, on "
+              "all five suites (quick: ed25519 fully + one codec check per other suite)."),
+        design_ref="DESIGN.md 3 C15; engines/kani/NOTES_C15.md",
+        note="Algebraic claims (Lagrange interpolation, aggregate verifies) are not posed; choose only for <= 2 commitments (thorough).",
+    ),
     "C06": dict(
         engine="llsym",
         technique="symbolic execution of optimized LLVM IR of every Point::set_decode with all bytes symbolic; bit-vector queries (z3) on over-approximated cones for: exact status, failure => NEUTRAL, rejection of every byte-level forbidden string",
@@ -189,7 +230,9 @@ man = {
         "add_only": True,
     },
     "engines": [
-        {"name": "polyid", "path": "engines/polyid", "serves_properties": ["C03"],
+        {"name": "kani", "path": "engines/kani", "serves_properties": ["C11", "C15", "C16", "C19"],
+         "kind_free_text": "Kani/CBMC proof harnesses wired into a scratch copy of the crate; concrete-playback replay"},
+        {"name": "polyid", "path": "engines/polyid", "serves_properties": ["C03", "C04", "C10", "C14"],
          "kind_free_text": "interpreter over rustc MIR executing point formulas over an abstract ring; z3 decides polynomial identities"},
         {"name": "llsym", "path": "engines/llsym", "serves_properties": ["C01", "C02", "C05", "C06", "C07", "C08", "C09", "C11", "C12", "C18", "C19", "C20"],
          "kind_free_text": "symbolic executor over rustc's optimized LLVM IR (concrete control, symbolic data) with bit-vector and integer SMT encodings; z3/cvc5 decide"},
